@@ -179,45 +179,31 @@ theorem store_writeRange (ws : Bool) (s : MState) (o : Out) : (Handler3.writeRan
 
 /-! ## ZADD -/
 
-theorem frame_zAdd_go (args : List Bytes) (key : Bytes) (now : Int) :
-    ∀ (ps : List (Bytes × Bytes)) (s : MState) (count : Int), s.pebble = true →
-    Frame [] s (Handler3.zAdd.go args key now ps s count).store
-  | [], s, count, _ => by unfold Handler3.zAdd.go; exact Frame.refl _ _
-  | (sc, member) :: more, s, count, hp => by
-    unfold Handler3.zAdd.go
-    split
+theorem frame_zAddBody (args : List Bytes) (key : Bytes) (itemStart : Int) (s : MState) (now : Int) (ch : Choice)
+    (hp : s.pebble = true) : Frame [] s (Handler3.zAddBody args key itemStart s now ch).store := by
+  unfold Handler3.zAddBody
+  dsimp only
+  split
+  · exact Frame.refl _ _
+  · split
     · exact Frame.refl _ _
-    · exact Frame.refl _ _
-    · next score _ =>
-      split
+    · split
       · exact Frame.refl _ _
       · split
-        · exact frame_call _ _ (fun _ o => by split <;> rfl) (frame_zincrby s hp now key member score)
+        · exact Frame.refl _ _
         · split
-          · exact frame_call _ _ (fun _ _ => rfl) (frame_zaddXX s hp now key member score)
+          · exact Frame.refl _ _
           · split
-            · exact frame_call _ _ (fun _ _ => rfl) (frame_zaddWith s hp now DsZSet.zAddNX key member score)
             · split
-              · exact frame_call _ _ (fun _ _ => rfl) (frame_zaddCmp s hp now DsZSet.zAddLT key member score)
-              · split
-                · exact frame_call _ _ (fun _ _ => rfl) (frame_zaddCmp s hp now DsZSet.zAddGT key member score)
-                · have h1 : Frame [] s (Api.zadd s now key member score).1 :=
-                    frame_zaddWith s hp now DsZSet.zAdd key member score
-                  generalize Api.zadd s now key member score = r at h1 ⊢
-                  obtain ⟨s1, o⟩ := r
-                  dsimp only at h1 ⊢
-                  split
-                  · next heq => cases heq; exact h1
-                  · next heq =>
-                    cases heq
-                    exact h1.trans0 ((frame_commit _).trans0
-                      (frame_zAdd_go args key now more _ _ (h1.pebble hp)))
+              · exact Frame.refl _ _
+              · exact frame_call _ _ (fun _ o => by split <;> rfl) (frame_zincrby s hp now key _ _)
+            · exact frame_call _ _ (fun _ _ => rfl) (frame_zaddPairs s hp now key _ _ _ _ _ _)
 
 theorem signals_zAdd (args : List Bytes) (b : Body) (h : Handler3.zAdd args = .exec b) : SignalsChanges b := by
   unfold Handler3.zAdd at h
   dsimp only at h
   exec_cases
-  exact signals_of_frame fun st now _ hp => frame_zAdd_go _ _ now _ st 0 hp
+  exact signals_of_frame fun st now ch hp => frame_zAddBody _ _ _ st now ch hp
 
 /-! ## the read-only sorted-set commands -/
 
